@@ -53,6 +53,7 @@ func renderWire(v eval.Value) string {
 			return fmtF(x.C)
 		}
 	case *eval.StructVal:
+		liftEmbedded(x, map[*eval.StructVal]bool{}) // promoted fields count as the struct's own
 		if tag, ok := x.F["ID"].(eval.Str); ok && tag.IsConst() {
 			return "record(" + tag.Const() + ")"
 		}
@@ -196,6 +197,12 @@ func runWiring(c *core.Ctx, pkg, entry string, args []eval.Value, numCPU int, ca
 						if b, isB := ct.Elem().Underlying().(*types.Basic); isB && b.Kind() == types.Bool {
 							ch.Sent = append(ch.Sent, true)
 							ch.Feed = append(ch.Feed, true)
+						} else if st, isSt := ct.Elem().Underlying().(*types.Struct); isSt && st.NumFields() == 0 {
+							// a `chan struct{}` completion channel: whether the real stage sends a token or closes it,
+							// the waiting receive returns
+							z := ev.Zero(ct.Elem())
+							ch.Sent = append(ch.Sent, z)
+							ch.Feed = append(ch.Feed, z)
 						} else if strings.HasSuffix(ct.Elem().String(), "sam.Header") {
 							h := &eval.StructVal{F: map[string]eval.Value{"_tag": eval.S("samheader")}}
 							ch.Sent = append(ch.Sent, h)
